@@ -324,3 +324,47 @@ func VerifC04_R_restore_faults() {
 		sym.Assert(lerr != nil, "C04.R.read-fault-is-reported")
 	}
 }
+
+// C04.R-term with many unreadable blobs: a wide directory (10 files) of which none, all but one, or all
+// blobs have disappeared from the cache is restored or rejected - Load returns either way, also
+// when the number of failing downloads exceeds any internal concurrency limit.
+func VerifC04_R_restore_with_many_lost_blobs() {
+	ctx, cas := setupWorld()
+	h := NewDirectoryOutputHandler(cas)
+	t := model.Target{Label: label.TL("p", "t"), ChangeHash: "h"}
+	out := model.NewOutput("dir", "dist")
+	root := t.GetAbsOutputPath(out)
+	var es []entry
+	for i := 0; i < 10; i++ {
+		es = append(es, entry{path: fmt.Sprintf("f%d", i), content: fmt.Sprintf("content-%d", i)})
+	}
+	materialise(root, es)
+	genOut, err := h.Write(ctx, t, out, nil)
+	sym.Assert(err == nil, "C04.R.setup-write")
+	must(os.RemoveAll(root))
+	keep := []int{10, 1, 0}[sym.Choice("blobs_left", 3)]
+	casDir := filepath.Join(config.Global.GetWorkspaceCacheDirectory(), "cas")
+	lost := 0
+	for i, e := range es {
+		if i < keep {
+			continue
+		}
+		// the blob of file i: find it by content
+		ents, _ := os.ReadDir(casDir)
+		for _, de := range ents {
+			if b, rerr := os.ReadFile(filepath.Join(casDir, de.Name())); rerr == nil && string(b) == e.content {
+				must(os.Remove(filepath.Join(casDir, de.Name())))
+				lost++
+			}
+		}
+	}
+	lerr := h.Load(ctx, t, genOut, nil)
+	sym.Quiesce()
+	sym.Reach("C04.R.many.load-returned")
+	if lost == 0 {
+		sym.Assert(lerr == nil, "C04.R.no-fault-no-error")
+		auditTree(root, es, "C04.R")
+	} else {
+		sym.Assert(lerr != nil, "C04.R.read-fault-is-reported")
+	}
+}
